@@ -148,8 +148,10 @@ SQL_DDL = """
         batch_num_samp               NDARRAY,
         method_samp                  NDARRAY
     );
+"""
 
-    DELETE FROM checkpoint;
+SQL_DELETE = """
+    DELETE FROM checkpoint
 """
 
 
@@ -349,6 +351,9 @@ def save_calibrator_state(  # noqa: PLR0913
         cursor.execute(SQL_SAVE_USER_VERSION)
         cursor.executescript(SQL_DDL)
 
+        # the previous checkpoint is removed in the same transaction that stores the
+        # new one (executescript would commit the DELETE on its own)
+        cursor.execute(SQL_DELETE)
         cursor.execute(
             SQL_SAVE_QUERY,
             (
